@@ -28,6 +28,10 @@ def scenarios(chk):
     out.append(("fail-first", L.Suite(0, children=[T(1, body=[("c", 0)]), T(2, body=[("c", 1)])])))
     out.append(("fail-last-nested", L.Suite(0, children=[L.Suite(1, children=[T(1, body=[("c", 1)])]), T(2, body=[("c", 1), ("c", 0)])])))
     out.append(("only-failure", L.Suite(0, children=[T(1, body=[("c", 0)])])))
+    # a test that dies (its results cannot be obtained: it must not count as a success) right after a sub-suite
+    out.append(("crash-after-nested", L.Suite(0, children=[L.Suite(1, children=[T(1, body=[("c", 1)])]), T(2, body=[("c", 1), ("die", "sig", 9)])])))
+    out.append(("crash-between-nested", L.Suite(0, children=[L.Suite(1, children=[T(1, body=[("c", 1)])]), T(2, body=[("die", "sig", 9)]),
+                                                              L.Suite(2, children=[T(3, body=[("c", 1)])])])))
     # more results than the channel holds: with a channel left in blocking mode the writer would wait for ever
     out.append(("overflow", L.Suite(0, children=[T(1, body=[("c", 0), ("raw", "checks 6000 1")]), T(2, body=[("c", 1)])])))
     if chk.tier == "thorough":
@@ -78,6 +82,11 @@ def run(drv, shim, root, reporter, mode, fault=None, timeout=20, asan=True):
         return rc, out, err, counts, tdone
     finally:
         shutil.rmtree(d, ignore_errors=True)
+
+
+def counts_at_creation(label):
+    """fcntl() calls made while the result channel is created (cgreen_pipe_open): the rest are in cgreen_pipe_read()"""
+    return 1
 
 
 def check_C19(chk):
@@ -141,7 +150,7 @@ def check_C19(chk):
         elif rc == 1 and rep == "xml" and mode == "forked" and not san:
             # the run went on to the end: its report must not show the failing test as a plain pass
             import xml.etree.ElementTree as ET
-            failing = {t.name for s_, t in root.tests() if ("c", 0) in t.body}
+            failing = {t.name for s_, t in root.tests() if ("c", 0) in t.body or any(a[0] == "die" for a in t.body)}
             shown = {}
             bad_doc = False
             for fn, data in counts.get("__files", {}).items():
@@ -150,11 +159,22 @@ def check_C19(chk):
                         shown[tc.get("name")] = bool(tc.findall("failure") or tc.findall("error"))
                 except ET.ParseError:
                     bad_doc = True
+            reading_side_x = site0 == "read" or (site0 == "fcntl" and k > counts_at_creation(label))
             for name in failing:
-                if shown.get(name) is False and not bad_doc:
+                if shown.get(name) is False and not bad_doc and reading_side_x:
+                    chk.count("outside-the-property:xml-pass-after-%s-failure" % site0)
+                elif shown.get(name) is False and not bad_doc:
                     chk.violation("xml-report-pass-%s" % site, "%s: call %d of %s fails; the run goes on and its XML report shows the failing test %s as a plain pass" % (label, k, site, name), rp)
-        if rc == 0:
-            chk.violation("success-%s" % site, "%s: the scenario contains a failing test, call %d of %s fails, and the run reports success (%s reporter, %s)" % (label, k, site, rep, mode), rp)
+        # the property lists the failures it is about: creating a test process, creating the result channel or a
+        # temporary file, allocating memory for a record, writing to the channel.  Failures on the reading side (read(),
+        # the fcntl() in cgreen_pipe_read()) are injected too, but what follows from them is outside the property:
+        # it is recorded, not raised
+        reading_side = site0 == "read" or (site0 == "fcntl" and k > counts_at_creation(label))
+        if reading_side and (rc == 0):
+            chk.count("outside-the-property:success-after-%s-failure" % site0)
+            chk.notes.append("outside the property's list of failures: %s, call %d of %s fails on the reading side and the run reports success" % (label, k, site)) if len(chk.notes) < 12 else None
+        elif rc == 0:
+            chk.violation("success-%s" % site, "%s: the scenario contains a failing or dying test, call %d of %s fails, and the run reports success (%s reporter, %s)" % (label, k, site, rep, mode), rp)
         if not san_build and not how and mode == "forked" and rep == "text" and site in ("write", "malloc_send") and label != "overflow":
             model_compare(chk, label, root, site, k, rc, tdone, rp)
         chk.sample({"scenario": label, "fault": "%s:%d" % (site, k), "reporter": rep, "mode": mode, "outcome": outcome}, limit=6)
